@@ -162,6 +162,15 @@ def long_streams(mido):
               1025, 4095, 4096, 4097, 65535, 65536):
         out.append(([0xF0] + [(i * 3) & 0x7F for i in range(n)] + [0xF7, 0xF8],
                     f'sysex with {n} data bytes'))
+    for n in (60, 63, 64, 70, 200, 1100):
+        # a long sysex with real-time bytes inside, cut short by another
+        # status byte (bulk paths for long runs live here)
+        out.append(([0xF0] + [1] * n + [0xF8] + [0xF0, 1, 2, 0xF7],
+                    f'sysex of {n} with a clock, restarted by F0'))
+        out.append(([0xF0] + [1] * n + [0xF8] + [0x90, 1, 2] + [3] * n + [0xF7],
+                    f'sysex of {n} with a clock, aborted by note_on'))
+        out.append(([0xF0] + [1] * n + [0xFA, 0xF8, 0xFF] + [0xF4] + [2] * n
+                    + [0xF7], f'sysex of {n} with real-time bytes and F4'))
     for n in (64, 65, 66, 200, 1000):
         out.append(([0x92, 1, 2] * n, f'{n} equal note_on messages'))
         out.append(([0xF8] * n + [0x90, 5] + [0xF8] * 3 + [6],
